@@ -416,7 +416,7 @@ def fuzz_stage(col: Collector, mod, runs, seed, max_len=4096, timeout=1500):
     out = tempfile.mkdtemp(prefix=f"vf-fuzz-{mod.PROP}-")
     try:
         cmd = [sys.executable, "-m", "vf.fuzz", mod.PROP, out, f"-runs={runs}", f"-seed={max(1, seed)}", f"-max_len={max_len}",
-               "-print_final_stats=0", "-verbosity=0", f"-artifact_prefix={out}/"]
+               "-print_final_stats=0", "-verbosity=0", f"-artifact_prefix={out}/", "-rss_limit_mb=6144", "-timeout=600"]
         env = dict(os.environ)
         try:
             p = subprocess.run(cmd, cwd=VERIF_DIR, env=env, capture_output=True, text=True, timeout=timeout)
@@ -442,7 +442,13 @@ def fuzz_stage(col: Collector, mod, runs, seed, max_len=4096, timeout=1500):
             if unknown:
                 col.violations.append((case, unknown))
         if not crashes and status not in (0, "timeout"):
-            raise HarnessError(f"atheris stage for {mod.PROP} ended with status {status} and no crash file: {p.stderr[-400:]}")
+            if "libFuzzer: out-of-memory" in p.stderr or "libFuzzer: timeout" in p.stderr:
+                # the fuzzer's own resource guard ended the stage (memory of the instrumented process, or one input taking
+                # minutes): inconclusive - neither a violation nor a reason to fail the check
+                status = "timeout"
+                col.extra["atheris_resource_stop"] = ("out-of-memory" if "out-of-memory" in p.stderr else "per-input timeout") + " guard of libFuzzer"
+            else:
+                raise HarnessError(f"atheris stage for {mod.PROP} ended with status {status} and no crash file: {p.stderr[-400:]}")
         if status == "timeout":
             col.extra["atheris_note"] = "stage stopped by its wall-clock budget (inconclusive, not a violation)"
     finally:
